@@ -113,6 +113,7 @@ type Eng struct {
 	missingLoops []int
 	localChans   []localChan
 	siteHit      map[*SiteSpec]bool
+	noCallHit    map[*Clause]bool
 	binderDepth  int
 }
 
@@ -152,6 +153,7 @@ func (e *Eng) reset() {
 	e.missingLoops = nil
 	e.localChans = nil
 	e.siteHit = nil
+	e.noCallHit = nil
 	e.tagTypes = map[string]types.Type{}
 	e.implDone = map[string]bool{}
 	e.detAx = nil
